@@ -219,3 +219,57 @@ func (st *stability) concurrentQuote(rn *runner, x, y []byte) {
 		Impl:  bad[0] + " / " + bad[1], Key: "result-stable-across-calls:concurrent:" + common.Hex(x) + ":" + common.Hex(y),
 		Detail: "Quote called from two goroutines at once returned (or later showed) something other than the quoted form of its input"})
 }
+
+// ---- caller's memory ("caller-memory-unchanged"): the package reads its arguments, it
+// must not write to them nor to the storage behind them.  The input is placed in the
+// middle of a larger buffer (so that it has spare capacity holding other data, as a
+// sub-slice of a file image does); after the call the whole buffer must be as before.
+
+var integrityReported = 0
+
+func callOnSlice(fn string, x []byte) {
+	defer func() { recover() }()
+	switch fn {
+	case "Parse":
+		txtar.Parse(x)
+	case "NeedsQuote":
+		txtar.NeedsQuote(x)
+	case "Quote":
+		txtar.Quote(x)
+	case "Unquote":
+		txtar.Unquote(x)
+	case "Format": // the comment and the file body are sub-slices with data behind them
+		txtar.Format(&txtar.Archive{Comment: x, Files: []txtar.File{{Name: "n", Data: x}}})
+	}
+}
+
+func integrityFails(fn string, x []byte) (bool, string) {
+	pre, post := []byte("PRE"), []byte("Z-- z --\nPOST")
+	buf := make([]byte, 0, len(pre)+len(x)+len(post)+8)
+	buf = append(append(append(buf, pre...), x...), post...)
+	want := append([]byte{}, buf...)
+	callOnSlice(fn, buf[len(pre):len(pre)+len(x)]) // len(x) bytes, capacity reaching over post
+	if bytes.Equal(buf, want) {
+		return false, ""
+	}
+	return true, fmt.Sprintf("buffer %q became %q", want, buf)
+}
+
+func (st *stability) integrity(rn *runner, fns []string, x []byte) {
+	for _, fn := range fns {
+		bad, how := integrityFails(fn, x)
+		if !bad {
+			continue
+		}
+		rn.res.Count("oracle-fails:caller-memory-unchanged")
+		if integrityReported++; integrityReported > 3 {
+			return
+		}
+		y := common.ShrinkBytes(x, func(c []byte) bool { b, _ := integrityFails(fn, c); return b })
+		_, how = integrityFails(fn, y)
+		rn.res.Violate(common.Violation{Kind: "impl-violation", Oracle: "caller-memory-unchanged",
+			Input: map[string]string{"x": common.Hex(y), "x_text": fmt.Sprintf("%q", y), "fn": fn, "where": "sub-slice of a larger buffer"},
+			Impl:  how, Key: "caller-memory-unchanged:" + fn + ":" + common.Hex(y),
+			Detail: fn + "(x) wrote to its argument or to the bytes behind it (x was buf[3:3+len(x)] of a larger buffer): data the caller still owns was changed"})
+	}
+}
